@@ -279,13 +279,30 @@ def run_ws_case(names, ssl, maxm, ping, ext, sends, reacts, auto, inputs):
     h = R.StreamHarness("ws", names, ssl, reacts, auto, ws_sends=sends, ping=ping, max_message=maxm)
     obs = []
     with R.patched_ws(h, ext):
-        for i in inputs:
+        for idx, i in enumerate(inputs):
             if i[0] == "app":
                 obs.append(h.step(h.stream.app_send(R.msg_py(i[1]))))
             elif i[0] == "wrequest":
                 ev = Request(stream_id=1, headers=list(i[1]), http_version=i[2], method="GET", raw_path=i[3], state=ConnectionState({}))
                 obs.append(h.step(h.stream.handle(ev)))
             elif i[0] == "wdata":
+                # wsproto contract: the fragments of one message have one type.  What the stream's buffer holds depends on
+                # where an earlier read was cut short by an exception, so the events are re-synchronised with it here (the
+                # inputs list is edited in place: the model is given the same events).
+                import io
+
+                value = h.stream.buffer.value
+                cur = None if value is None else isinstance(value, io.StringIO)
+                fixed = []
+                for e in i[1]:
+                    if e[0] == "msg":
+                        if cur is not None and e[1] != cur:
+                            e = ("msg", cur, "z" if cur else b"z", e[3])
+                        cur = None if e[3] else e[1]
+                    fixed.append(e)
+                if fixed != list(i[1]):
+                    i = ("wdata", fixed)
+                    inputs[idx] = i
                 conn = getattr(h.stream, "connection", None)
                 if conn is not None:
                     conn.pending = list(i[1])
